@@ -84,7 +84,7 @@ def generate():
 # the evidence; a function that is not found any more is listed as `missing`.
 COVERED = {
     "src/spox/_standard.py": ["StandardNode.to_singleton_onnx_model", "StandardNode.infer_output_types_onnx",
-                              "StandardNode.infer_output_types", "_strip_dim_symbol_shape", "_strip_dim_symbol",
+                              "StandardNode.infer_output_types", "_strip_dim_symbol_shape", "_strip_dim_symbol", "_dim_symbols",
                               "_make_dummy_subgraph"],
     "src/spox/_node.py": ["Node.__init__", "Node.inference", "Node.to_onnx", "Node._init_output_vars", "Node.min_input", "Node.min_output"],
     "src/spox/_fields.py": ["BaseVars.__post_init__", "BaseVars._get_field_type", "BaseVars._flatten", "BaseVars.get_vars", "BaseVars.fully_typed"],
